@@ -68,14 +68,15 @@ def nullable(t):
 
 # ------------------------------------------------------------------------------------------------ generation
 class Gen:
-    def __init__(self, rng, rich=False):
+    def __init__(self, rng, suffix=""):
         self.rng = rng
         self.n = 0
-        self.rich = rich
+        # type names must be unique per process: typing caches List["X"] / ForwardRef("X") objects together with their evaluated value
+        self.suffix = suffix
 
     def fresh(self, p):
         self.n += 1
-        return f"{p}{self.n}"
+        return f"{p}{self.n}{self.suffix}"
 
     def fname(self):
         self.n += 1
@@ -185,9 +186,12 @@ class Gen:
     def out_type(self, allow_obj=True, selfname=None, top=True):
         r = self.rng
         k = r.random()
-        objs = [c["name"] for c in self.P["classes"] if c["role"] in ("out", "both")]
+        objs = [c["name"] for c in self.P["classes"] if c["role"] in ("out", "both") and c["name"] != selfname]
         if allow_obj and objs and k < 0.3:
             t = ["obj", r.choice(objs)]
+            if selfname and self.cls(t[1])["interface"]:
+                # inside a class, interfaces are referenced through Optional / List only (keeps generated values finite)
+                return ["opt", t] if r.random() < 0.5 else ["list", t]
         elif allow_obj and selfname and k < 0.4:
             t = ["obj", selfname]
             w = r.random()
@@ -258,8 +262,7 @@ class Gen:
             t = t[1]
         c = core(t)
         if t[0] == "list":
-            k = r.random()
-            if k < 0.5:
+            if r.random() < 0.2:
                 return {"kind": "unhashable", "src": "[]", "factory": "list"}
             return None
         if t[0] == "prim":
@@ -353,6 +356,8 @@ class Gen:
             else:
                 t = self.in_type(selfname=name)
                 d = self.in_default(t)
+            if d is not None and d["kind"] == "object" and not d["frozen"]:
+                d = {**d, "factory": "lambda: " + d["src"]}
             fields.append({"name": self.fname(), "t": t, "alias": self.maybe_alias(), "default": d, "flatten": False})
         # flatten another input class
         others = [c for c in self.P["classes"] if c["role"] == "in" and not any(f["flatten"] for f in c["fields"])]
@@ -395,6 +400,9 @@ class Gen:
             cl["bases"] = [base]
         elif ifaces and r.random() < (0.3 if interface else 0.6):
             cl["bases"] = [r.choice(ifaces)]
+        if interface or cl["bases"]:
+            # a class-level aliaser would rename the inherited interface fields in the implementer only (ill-formed schema)
+            cl["class_aliaser"] = False
         if r.random() < 0.15:
             cl["gql_name"] = self.fresh("Named")
         self.P["classes"].append(cl)  # registered first: self references allowed
@@ -410,8 +418,12 @@ class Gen:
         for _ in range(r.choice([0, 0, 1, 1, 2])):
             rn = self.fname()
             cl["resolvers"].append({"name": rn, "alias": self.maybe_alias(0.25), "params": self.params(), "ret": self.out_type(selfname=name),
-                                    "error_handler": r.choice(["undef", "undef", "undef", "none", "custom_none", "reraise"])})
+                                    "error_handler": self.handler_kind()})
         return cl
+
+    def handler_kind(self):
+        k = self.rng.random()
+        return "undef" if k < 0.62 else "none" if k < 0.8 else "custom_none" if k < 0.96 else "reraise"
 
     def flattened_anywhere(self, cname, names):
         """does class cname (transitively through its flattened fields / bases) flatten or inherit one of `names`"""
@@ -442,7 +454,7 @@ class Gen:
         r = self.rng
         name = self.fname()
         op = {"root": root, "name": name, "alias": self.maybe_alias(0.25), "params": self.params(nparams),
-              "ret": ret or self.out_type(), "error_handler": r.choice(["undef", "undef", "undef", "none", "custom_none", "reraise"])}
+              "ret": ret or self.out_type(), "error_handler": self.handler_kind()}
         self.P["ops"].append(op)
         return op
 
@@ -935,69 +947,93 @@ class Values:
 
 # ------------------------------------------------------------------------------------------------ queries + expected data
 class Selection:
-    """builds the text of a selection over an output type and, in parallel, the expected data for a value"""
+    """selection tree over an output type (bounded: object depth, repetitions of a class on a path, total number of fields),
+    its query text and, following the same tree, the expected data for a value"""
 
-    def __init__(self, model, loaded, actual_names, var_alloc, arg_values, id_ser, max_depth=3):
+    def __init__(self, model, loaded, actual_names, var_alloc, arg_values, id_ser, max_depth=3, budget=220):
         self.m, self.mod = model, loaded.module
         self.actual = actual_names      # (gql type name, expected field name) -> actual field name in the built schema
-        self.var_alloc = var_alloc      # callable(owner gql type, actual field name, arg expected name, gql value) -> "$vN" or None
+        self.var_alloc = var_alloc      # callable(owner gql type, actual field name, arg expected name, gql value) -> ("$vN", arg name) or None
         self.arg_values = arg_values    # callable(key, params) -> {param name: (gql, plain)} valid arguments
         self.id_ser = id_ser
         self.max_depth = max_depth
+        self.budget = budget
+        self.fragments = 0
+        self.argtext = {}
         self.calls = {}                 # resolver key -> {param: (gql, plain) or absent}
 
-    # -- query text
-    def text(self, t, depth=0):
+    # -- tree: None (leaf) | ("obj", declared class, [(entry, head, sub)], {impl: [(entry, head, sub)]}) | ("union", {member: obj node})
+    def build(self, t, depth=0, path=()):
         c = core(t)
         if c[0] == "obj":
-            return self.obj_text(c[1], depth)
+            return self.build_obj(c[1], depth, path)
         if c[0] == "union":
-            u = self.m.unions[c[1]]
-            return "{ __typename " + " ".join(f"... on {self.m.gql_name(mb, 'out')} {self.obj_text(mb, depth)}" for mb in u["members"]) + " }"
-        return ""
+            return ("union", {mb: self.build_obj(mb, depth, path) for mb in self.m.unions[c[1]]["members"]})
+        return None
 
-    def obj_text(self, cname, depth, as_fragment_of=None):
+    def build_obj(self, cname, depth, path):
         m = self.m
-        parts = ["__typename"]
         tname = m.gql_name(cname, "out")
-        for e in m.out_fields(cname):
-            parts.append(self.field_text(tname, e, depth))
+        path2 = path + (cname,)
+        fields = [x for x in (self.build_field(tname, e, depth, path2) for e in m.out_fields(cname)) if x]
+        frags = {}
         if m.classes[cname]["interface"]:
             base = {e["name"] for e in m.out_fields(cname)}
             for impl in m.implementers(cname):
                 iname = m.gql_name(impl, "out")
-                sub = [self.field_text(iname, e, depth) for e in m.out_fields(impl) if e["name"] not in base]
-                sub = [s for s in sub if s]
-                if sub:
-                    parts.append(f"... on {iname} {{ {' '.join(sub)} }}")
-        return "{ " + " ".join(p for p in parts if p) + " }"
+                frags[impl] = [x for x in (self.build_field(iname, e, depth, path2 + (impl,)) for e in m.out_fields(impl) if e["name"] not in base) if x]
+        return ("obj", cname, fields, frags)
 
-    def field_text(self, tname, e, depth):
+    def build_field(self, tname, e, depth, path):
         m = self.m
         t = e["spec"]["t"] if e["kind"] == "field" else e["spec"]["ret"]
-        is_obj = core(t)[0] in ("obj", "union")
-        if is_obj and depth + 1 > self.max_depth:
-            return ""
+        c = core(t)
+        is_obj = c[0] in ("obj", "union")
+        if is_obj:
+            if depth + 1 > self.max_depth or self.budget <= 0:
+                return None
+            names = [c[1]] if c[0] == "obj" else m.unions[c[1]]["members"]
+            if any(path.count(n) >= 2 for n in names):
+                return None
         act = self.actual.get((tname, e["name"]), e["name"])
         head = e["name"] if act == e["name"] else f"{e['name']}: {act}"
         if e["kind"] == "resolver" and e["spec"]["params"]:
             key = f"{e['owner']}.{e['spec']['name']}"
-            vals = self.arg_values(key, e["spec"]["params"])
-            self.calls[key] = vals
-            args = []
-            for p in e["spec"]["params"]:
-                if p["name"] in vals:
-                    an = m.A(p["alias"] or p["name"])
-                    v = self.var_alloc(tname, act, an, vals[p["name"]][0])
-                    if v is None:
-                        return ""
-                    args.append(f"{v[1]}: {v[0]}")
+            if key not in self.argtext:
+                vals = self.arg_values(key, e["spec"]["params"])
+                self.calls[key] = vals
+                args = []
+                for p in e["spec"]["params"]:
+                    if p["name"] in vals:
+                        v = self.var_alloc(tname, act, m.A(p["alias"] or p["name"]), vals[p["name"]][0])
+                        if v is None:
+                            args = None
+                            break
+                        args.append(f"{v[1]}: {v[0]}")
+                self.argtext[key] = args
+            args = self.argtext[key]
+            if args is None:
+                return None
             if args:
                 head += "(" + ", ".join(args) + ")"
-        return head + (" " + self.text(t, depth + 1) if is_obj else "")
+        self.budget -= 1
+        return (e, head, self.build(t, depth + 1, path) if is_obj else None)
+
+    # -- query text
+    def text(self, node):
+        if node is None:
+            return ""
+        if node[0] == "union":
+            return "{ __typename " + " ".join(f"... on {self.m.gql_name(mb, 'out')} {self.text(sub)}" for mb, sub in node[1].items()) + " }"
+        _, cname, fields, frags = node
+        parts = ["__typename"] + [h + (" " + self.text(sub) if sub is not None else "") for _, h, sub in fields]
+        for impl, fl in frags.items():
+            if fl:
+                parts.append(f"... on {self.m.gql_name(impl, 'out')} {{ " + " ".join(h + (" " + self.text(sub) if sub is not None else "") for _, h, sub in fl) + " }")
+        return "{ " + " ".join(parts) + " }"
 
     # -- expected data: returns (data, tags)
-    def expect(self, t, ser, val, depth=0):
+    def expect(self, t, ser, val, node):
         from apischema import Undefined
 
         m = self.m
@@ -1005,13 +1041,13 @@ class Selection:
         if k == "undef":
             if val is Undefined:
                 return None, "undefined"
-            return self.expect(t[1], ser, val, depth)
+            return self.expect(t[1], ser, val, node)
         if k == "opt":
             if val is None:
                 return None, "null"
-            return self.expect(t[1], ser, val, depth)
+            return self.expect(t[1], ser, val, node)
         if k == "list":
-            pairs = [self.expect(t[1], s, v, depth) for s, v in zip(ser, val)]
+            pairs = [self.expect(t[1], s, v, node) for s, v in zip(ser, val)]
             return [p[0] for p in pairs], [p[1] for p in pairs]
         if m.is_id(t):
             return (self.id_ser(ser) if self.id_ser else ser), "id"
@@ -1027,13 +1063,15 @@ class Selection:
             return m.EA(ser), "literal"
         if k == "union":
             cname = type(val).__name__
-            return self.expect_obj(cname, cname, ser, val, depth)
+            self.fragments += 1
+            return self.expect_obj(node[1][cname], cname, ser, val)
         if k == "obj":
             rc = type(val).__name__
             if rc != t[1]:
                 # interface position: the fragments select the fields of the runtime class
+                self.fragments += 1
                 ser = self.serialize_as(rc, val)
-            return self.expect_obj(t[1], rc, ser, val, depth)
+            return self.expect_obj(node, rc, ser, val)
         raise ValueError(t)
 
     def serialize_as(self, cname, val):
@@ -1041,26 +1079,24 @@ class Selection:
 
         return serialize(getattr(self.mod, cname), val, aliaser=self.m.A_fn)
 
-    def expect_obj(self, declared, runtime, ser, val, depth):
+    def expect_obj(self, node, runtime, ser, val):
+        from apischema import Undefined, serialize
+
         m = self.m
+        _, declared, fields, frags = node
         data, tags = {"__typename": m.gql_name(runtime, "out")}, {"__typename": "typename"}
-        ents = m.out_fields(declared)
+        ents = list(fields)
         if runtime != declared:
-            seen = {e["name"] for e in ents}
-            ents = ents + [e for e in m.out_fields(runtime) if e["name"] not in seen]
-        for e in ents:
+            ents += frags.get(runtime, [])
+        for e, _, sub in ents:
             t = e["spec"]["t"] if e["kind"] == "field" else m.ret_type(e["spec"])
-            if core(t)[0] in ("obj", "union") and depth + 1 > self.max_depth:
-                continue
             holder = val
             for a in e["path"]:
                 holder = getattr(holder, a)
             flat = "flattened:" if e["path"] else ""
+            key = e["name"]
             if e["kind"] == "field":
-                from apischema import Undefined
-
                 v = getattr(holder, e["spec"]["name"])
-                key = e["name"]
                 if v is Undefined:
                     data[key], tags[key] = None, flat + "undefined"
                     continue
@@ -1068,15 +1104,12 @@ class Selection:
                     # serialize did not emit the key: report as a structural difference, not an oracle crash
                     data[key], tags[key] = {"$missing-in-serialize": key}, flat + "field"
                     continue
-                d, tg = self.expect(t, ser[key], v, depth + 1)
+                d, tg = self.expect(t, ser[key], v, sub)
             else:
-                from apischema import serialize
-
-                key = e["name"]
                 rkey = f"{e['owner']}.{e['spec']['name']}"
                 rv = self.mod.RESULTS[rkey]
                 rt = m.hint(self.mod, e["owner"], e["spec"]["name"])
-                d, tg = self.expect(t, serialize(rt, rv, aliaser=m.A_fn), rv, depth + 1)
+                d, tg = self.expect(t, None if rv is Undefined else serialize(rt, rv, aliaser=m.A_fn), rv, sub)
                 tg = _prefix(tg, "resolver:")
             data[key], tags[key] = d, _prefix(tg, flat) if flat else tg
         return data, tags
@@ -1238,8 +1271,6 @@ class ArgGen:
                 continue
             if f["default"] is not None and r.random() < 0.5:
                 continue
-            if f["default"] is None and nullable(f["t"]) and r.random() < 0.2:
-                continue   # nullable field without default: GraphQL lets it be absent; deserialize too? -> required in Python, so keep semantics equal by sending null
             owner_v = m.classes[e["owner"]]["validator"]
             if owner_v and owner_v["field"] == f["name"] and self.inject("api"):
                 self.done = "object-validator"
